@@ -200,6 +200,58 @@ def pin_xmath_Max : List String := ["func Max[T0 cmp.Ordered](p0, p1 T0) T0",
 def pin_xmath_Min : List String := ["func Min[T0 cmp.Ordered](p0, p1 T0) T0",
   "return min(p0, p1)"]
 
+/-- `RSample` in `xmath/xrand`: signature and full statement list, locals renamed positionally -/
+def pin_xmath_xrand_RSample : List String := ["func RSample(p0 *rand.Rand, p1 int, p2 int) []int",
+  "return rSample(p0, p1, p2)"]
+
+/-- `RSampleIterator` in `xmath/xrand`: signature and full statement list, locals renamed positionally -/
+def pin_xmath_xrand_RSampleIterator : List String := ["func RSampleIterator[T0 any](p0 *rand.Rand, p1 iterator.Iterator[T0], p2 int) []T0",
+  "return rSampleIterator(p0, p1, p2)"]
+
+/-- `RSampleSlice` in `xmath/xrand`: signature and full statement list, locals renamed positionally -/
+def pin_xmath_xrand_RSampleSlice : List String := ["func RSampleSlice[T0 any](p0 *rand.Rand, p1 []T0, p2 int) []T0",
+  "return rSampleSlice(p0, p1, p2)"]
+
+/-- `RSampleStream` in `xmath/xrand`: signature and full statement list, locals renamed positionally -/
+def pin_xmath_xrand_RSampleStream : List String := ["func RSampleStream[T0 any](p0 context.Context, p1 *rand.Rand, p2 stream.Stream[T0], p3 int) ([]T0, error)",
+  "return rSampleStream(p0, p1, p2, p3)"]
+
+/-- `RShuffle` in `xmath/xrand`: signature and full statement list, locals renamed positionally -/
+def pin_xmath_xrand_RShuffle : List String := ["func RShuffle[T0 any](p0 *rand.Rand, p1 []T0)",
+  "rShuffle(p0, p1)"]
+
+/-- `Sample` in `xmath/xrand`: signature and full statement list, locals renamed positionally -/
+def pin_xmath_xrand_Sample : List String := ["func Sample(p0 int, p1 int) []int",
+  "return rSample(defaultRand{}, p0, p1)"]
+
+/-- `SampleIterator` in `xmath/xrand`: signature and full statement list, locals renamed positionally -/
+def pin_xmath_xrand_SampleIterator : List String := ["func SampleIterator[T0 any](p0 iterator.Iterator[T0], p1 int) []T0",
+  "return rSampleIterator(defaultRand{}, p0, p1)"]
+
+/-- `SampleSlice` in `xmath/xrand`: signature and full statement list, locals renamed positionally -/
+def pin_xmath_xrand_SampleSlice : List String := ["func SampleSlice[T0 any](p0 []T0, p1 int) []T0",
+  "return rSampleSlice(defaultRand{}, p0, p1)"]
+
+/-- `SampleStream` in `xmath/xrand`: signature and full statement list, locals renamed positionally -/
+def pin_xmath_xrand_SampleStream : List String := ["func SampleStream[T0 any](p0 context.Context, p1 stream.Stream[T0], p2 int) ([]T0, error)",
+  "return rSampleStream(p0, defaultRand{}, p1, p2)"]
+
+/-- `Shuffle` in `xmath/xrand`: signature and full statement list, locals renamed positionally -/
+def pin_xmath_xrand_Shuffle : List String := ["func Shuffle[T0 any](p0 []T0)",
+  "rShuffle(defaultRand{}, p0)"]
+
+/-- `defaultRand.Float64` in `xmath/xrand`: signature and full statement list, locals renamed positionally -/
+def pin_xmath_xrand_defaultRand_Float64 : List String := ["func (defaultRand) Float64() float64",
+  "return rand.Float64()"]
+
+/-- `defaultRand.Intn` in `xmath/xrand`: signature and full statement list, locals renamed positionally -/
+def pin_xmath_xrand_defaultRand_Intn : List String := ["func (defaultRand) Intn(p0 int) int",
+  "return rand.Intn(p0)"]
+
+/-- `defaultRand.Shuffle` in `xmath/xrand`: signature and full statement list, locals renamed positionally -/
+def pin_xmath_xrand_defaultRand_Shuffle : List String := ["func (defaultRand) Shuffle(p0 int, p1 func(int, int))",
+  "rand.Shuffle(p0, p1)"]
+
 /-- `newSampler` in `xmath/xrand`: signature and full statement list, locals renamed positionally -/
 def pin_xmath_xrand_newSampler : List String := ["func newSampler[T0 randRand](p0 T0, p1 int) sampler[T0]",
   "return sampler[T0]{i: 0, first: true, w: math.Exp(math.Log(p0.Float64()) / float64(p1)), k: p1, r: p0}"]
@@ -341,16 +393,20 @@ def pin_xslices_Chunk : List String := ["func Chunk[T0 any](p0 []T0, p1 int) [][
   "if p1 <= 0 {",
   "panic(\"xslices.Chunk: chunkSize must be positive\")",
   "}",
-  "v0 := make([][]T0, (len(p0)+p1-1)/p1)",
-  "for v1 := range v0 {",
-  "v2 := v1 * p1",
-  "v3 := (v1 + 1) * p1",
-  "if v3 > len(p0) {",
-  "v3 = len(p0)",
+  "v0 := 0",
+  "if len(p0) > 0 {",
+  "v0 = (len(p0)-1)/p1 + 1",
   "}",
-  "v0[v1] = p0[v2:v3]",
+  "v1 := make([][]T0, v0)",
+  "for v2 := range v1 {",
+  "v3 := v2 * p1",
+  "v4 := len(p0)",
+  "if len(p0)-v3 > p1 {",
+  "v4 = v3 + p1",
   "}",
-  "return v0"]
+  "v1[v2] = p0[v3:v4]",
+  "}",
+  "return v1"]
 
 /-- `Clear` in `xslices`: signature and full statement list, locals renamed positionally -/
 def pin_xslices_Clear : List String := ["func Clear[T0 any](p0 []T0)",
@@ -577,7 +633,7 @@ def pin_xslices_Runs : List String := ["func Runs[T0 any](p0 []T0, p1 func(v0, v
 
 /-- `Shrink` in `xslices`: signature and full statement list, locals renamed positionally -/
 def pin_xslices_Shrink : List String := ["func Shrink[T0 any](p0 []T0, p1 int) []T0",
-  "if cap(p0) > len(p0)+p1 {",
+  "if cap(p0)-len(p0) > p1 {",
   "v0 := make([]T0, len(p0)+p1)",
   "copy(v0, p0)",
   "return v0[:len(p0)]",
